@@ -1,2 +1,79 @@
-/- C07 property theorems (under construction) -/
-import Decaf.Model.Exec
+/-
+C07 — Hash-to-group equals the specified Elligator 2 map.
+
+For every routine `sr` meeting the contract (both builds) and every r₀ < q: the one-input map never panics and never
+divides by zero (Z ≠ 0), its output represents exactly the point that ristretto.sage's `elligatorSpec` +
+`fromJacobiQuartic` define (`ElligatorTo`, relational form, see `Spec/Elligator.lean`), that point is in the even
+subgroup (so the output is a valid element, C01/C06), and the map is invariant under r₀ ↦ -r₀.  The two-input hash
+is, by its definition, the group sum of the one-input map applied to each input.
+-/
+import Decaf.Lemmas.ModelElligator
+import Decaf.Props.C01
+
+namespace C07
+open Model Edwards Decaf
+
+variable {sr : SR}
+
+/-- the one-input map equals the specification, for every field element -/
+theorem elligator_eq_spec (h : SRContract sr) (r0 : ℕ) :
+    ∃ c pt, elligator sr ZETA r0 = some c ∧ ERepr c pt ∧
+      ElligatorTo params paritySign ((ZETA : ℕ) : Fq) (r0 : Fq) pt.x pt.y ∧ Point.IsEven pt := by
+  obtain ⟨c, hc, hcast⟩ := elligator_cast h r0
+  obtain ⟨x, y, hrep, hspec, hon, hev⟩ := elligatorF_spec (P := params) (S := paritySign) (R := h.toSqrtRatio) ellHyp (r0 : Fq)
+  rw [← hcast] at hrep
+  exact ⟨c, ⟨x, y, hon⟩, hc, hrep, hspec, hev⟩
+
+/-- it never panics and never produces Z = 0 -/
+theorem elligator_total (h : SRContract sr) (r0 : ℕ) : ∃ c, elligator sr ZETA r0 = some c ∧ (c.Z : Fq) ≠ 0 := by
+  obtain ⟨c, pt, hc, hr, _, _⟩ := elligator_eq_spec h r0
+  exact ⟨c, hc, hr.z⟩
+
+/-- both builds (any two routines meeting the contract) return the same element -/
+theorem elligator_builds_agree {sr' : SR} (h : SRContract sr) (h' : SRContract sr') (r0 : ℕ) {c c' : Ext}
+    (hc : elligator sr ZETA r0 = some c) (hc' : elligator sr' ZETA r0 = some c') : Ext.eq c c' = true := by
+  obtain ⟨c1, p1, h1, r1, s1, _⟩ := elligator_eq_spec h r0
+  obtain ⟨c2, p2, h2, r2, s2, _⟩ := elligator_eq_spec h' r0
+  rw [hc] at h1; rw [hc'] at h2
+  injection h1 with h1; injection h2 with h2
+  subst h1; subst h2
+  obtain ⟨hx, hy⟩ := ElligatorTo.unique s1 s2
+  have : p2 = p1 := by ext <;> assumption
+  rw [this] at r2
+  exact C04.eq_of_repr_same r1 r2
+
+/-- invariance under r₀ ↦ -r₀ -/
+theorem elligator_neg (h : SRContract sr) (r0 : ℕ) {c c' : Ext}
+    (hc : elligator sr ZETA r0 = some c) (hc' : elligator sr ZETA (fneg q r0) = some c') : Ext.eq c c' = true := by
+  obtain ⟨c1, p1, h1, r1, s1, _⟩ := elligator_eq_spec h r0
+  obtain ⟨c2, p2, h2, r2, s2, _⟩ := elligator_eq_spec h (fneg q r0)
+  rw [hc] at h1; rw [hc'] at h2
+  injection h1 with h1; injection h2 with h2
+  subst h1; subst h2
+  rw [cast_fneg, ElligatorTo.neg_iff] at s2
+  obtain ⟨hx, hy⟩ := ElligatorTo.unique s1 s2
+  have : p2 = p1 := by ext <;> assumption
+  rw [this] at r2
+  exact C04.eq_of_repr_same r1 r2
+
+/-- the output is a valid element: its encoding decodes to an element equal to it -/
+theorem elligator_valid (h : SRContract sr) (r0 : ℕ) {c : Ext} (hc : elligator sr ZETA r0 = some c) :
+    ∃ bytes c', Ext.encode sr c = some bytes ∧ decode32 sr bytes = .ok c' ∧ Ext.eq c c' = true := by
+  obtain ⟨c1, p1, h1, r1, _, hev⟩ := elligator_eq_spec h r0
+  rw [hc] at h1; injection h1 with h1; subst h1
+  obtain ⟨bytes, c', _, he, hd, _, _, heq⟩ := C01.decode_encode h r1 hev
+  exact ⟨bytes, c', he, hd, heq⟩
+
+/-- the two-input hash is the group sum of the two one-input maps (either backend's addition) -/
+theorem hash_to_curve_eq (h : SRContract sr) (r1 r2 : ℕ) :
+    ∃ c1 c2 p1 p2, elligator sr ZETA r1 = some c1 ∧ elligator sr ZETA r2 = some c2 ∧ ERepr c1 p1 ∧ ERepr c2 p2 ∧
+      ERepr (Ext.addMin c1 c2) (p1 + p2) ∧ ERepr (Ext.addRef c1 c2) (p1 + p2) ∧ Point.IsEven (p1 + p2) := by
+  obtain ⟨c1, p1, h1, e1, _, v1⟩ := elligator_eq_spec h r1
+  obtain ⟨c2, p2, h2, e2, _, v2⟩ := elligator_eq_spec h r2
+  exact ⟨c1, c2, p1, p2, h1, h2, e1, e2, addMin_repr e1 e2, addRef_repr e1 e2, Point.isEven_add v1 v2⟩
+
+/-- non-vacuity: r₀ = 0 maps to an identity representative, r₀ = 1 does not (kernel evaluation, both routines) -/
+example : ((elligator sqrtRatioMin ZETA 0).map Ext.isIdentity = some true) ∧
+    ((elligator sqrtRatioArk ZETA 1).map Ext.isIdentity = some false) := by decide +kernel
+
+end C07
